@@ -8,7 +8,7 @@
 //	servers                                                          -> servers <url>… (sorted; url = scheme|user|host|path|query)
 //	weights                                                          -> weights <url>=<w>… (sorted)
 //	next                                                             -> ok <url> | err noservers | err allzero
-//	serve [cookie=<scheme>,<host>,<path|->] [mutate=host|path|scheme] -> 200 <url seen downstream> fresh|alias | 500 <kind>
+//	serve [cookie=<scheme>,<host>,<path|->] [mutate=host|path|scheme|all] -> 200 <url seen downstream> fresh|alias | 500 <kind>
 //	rate <scheme> <host> <path|-> <num>/<den> | ready … 0|1           -> ok | err notfound   (scripted meter of that server)
 //	adv <ns>                                                         -> ok
 //	serve-remove <scheme> <host> <path|->                            -> <serve output> ; <remove output>   (RemoveServer issued while the request's adjustment pushes weights)
@@ -160,6 +160,8 @@ func (s *h) downstream(w http.ResponseWriter, req *http.Request) {
 		req.URL.Path = "/evil"
 	case "scheme":
 		req.URL.Scheme = "evil"
+	case "all":
+		*req.URL = url.URL{Scheme: "evil", Host: "evil", Path: "/evil", User: url.User("evil"), RawQuery: "evil=1"}
 	}
 	w.WriteHeader(http.StatusOK)
 }
@@ -341,7 +343,7 @@ func (s *h) Op(f []string) string {
 		}
 		s.mutate = ""
 		if m, ok := hx.KV(f[1:], "mutate"); ok {
-			if m != "host" && m != "path" && m != "scheme" {
+			if m != "host" && m != "path" && m != "scheme" && m != "all" {
 				return "bad-op"
 			}
 			s.mutate = m
